@@ -57,14 +57,28 @@ OWNER_PAIRED = {
 
 
 def r1(ctx, F):
+    from kern import must_call_summary
+    wrappers = must_call_summary(F, ADDREF)
+
+    def addref_calls(g):
+        return [c for c in g.calls if c.bb not in g.cleanup and not c.indirect
+                and (re.search(ADDREF, c.name) or c.callee_uid() in wrappers)]
+
     sites = callers(F, ADDREF)
     ctx.floor("C13.R1", "add_reference call sites", len(sites), 12)
     for key, fpat, shape, spat in INSTANCES:
         f = F.one(fpat)
-        adds = [c for c in calls_by_name(f, ADDREF) if c.bb not in f.cleanup]
+        adds = addref_calls(f)
         if not adds:
-            ctx.bad("C13.R1", key, "no add_reference call left in this function: values handed out here are no "
-                                   "longer kept alive by the receiving heap", fn=f)
+            # the reference may be taken by every caller before it calls this function (refactor-robustness)
+            sites = [(g, c) for g in F.fns.values() for c in g.calls if not c.indirect and c.callee_uid() == f.uid]
+            good = bool(sites) and all(
+                any(g.dominates(a.bb, c.bb) and a.bb != c.bb for a in addref_calls(g)) for g, c in sites)
+            ctx.check(good, "C13.R1", key,
+                      "add_reference dominates every call of this function in its callers",
+                      "no add_reference dominates the hand-out: neither in this function nor before every call of it "
+                      "in its callers (a value is handed to the receiving heap on a path that never records the "
+                      "dependency: use-after-free once the source module is dropped)", fn=f)
             continue
         if shape == "dominates":
             sinks = [c for c in calls_by_name(f, spat) if c.bb not in f.cleanup]
